@@ -32,7 +32,7 @@ class PoolInterp(Interp):
         self.abuses = collections.Counter()
 
     def ev(self, t):
-        key = json.dumps(t, sort_keys=True, ensure_ascii=True)
+        key = json.dumps(t, sort_keys=True, ensure_ascii=True, default=repr)
         hit = self.pool.get(key)
         if hit is not None:
             self.reused += 1
@@ -89,7 +89,7 @@ class PoolClsInterp(K.ClsInterp):
     def ev(self, t):
         if t.get('o') in ('chr', 'tokv', 'bad', 'frombad', 'btwbad'):
             return super().ev(t)
-        key = json.dumps(t, sort_keys=True, ensure_ascii=True)
+        key = json.dumps(t, sort_keys=True, ensure_ascii=True, default=repr)
         hit = self.pool.get(key)
         if hit is not None:
             self.reused += 1
@@ -133,6 +133,9 @@ def programs(tier, seed, part, nparts):
     progs = [it for i, it in enumerate(G.w3_depth1(True)) if i % nparts == part]
     if tier == 'quick':
         progs = progs[::3]
+    progs += [it for i, it in enumerate(dsl.backref_programs()) if i % nparts == part]
+    progs += [it for i, it in enumerate(dsl.qseq_programs()) if i % nparts == part]
+    progs += [{k: v for k, v in it.items() if k not in ('hole', 'pos')} for i, it in enumerate(G.twin_programs()) if i % nparts == part]
     rnd = random.Random((seed * 1013 + part) * 3 + 20)
     progs += list(G.w4_random(rnd, (2400 if tier == 'quick' else 24000) // nparts))
     return progs
